@@ -71,6 +71,8 @@ def plan(tier, seed):
     pl.cases = production_cases(want) + lexing.lexer_cases(want) + print_contract_cases()
     pl.canaries = [canary()]
     pl.finite = [("C01-F/grammar-facts", parsing.grammar_facts)]
+    from vfkit import lean as _leanc
+    pl.finite.append(("A6/Lean re-check of the composition lemmas L-LEX, L-LR", _leanc.compose_check('L-LEX', 'L-LR')))
     from vfkit import lean as _lean
     pl.finite.append(("A5/Lean re-check of the lifting lemmas for operand runs", _lean.lemma_check))
     L = 4 if tier == "quick" else 6
@@ -94,11 +96,11 @@ def plan(tier, seed):
     pl.replay_builder = parsing.replay_requests("C01")
     pl.assumptions = ASSUMPTIONS
     pl.trusted_base = TRUSTED
-    pl.lemmas = ["L-LR (paper, DESIGN 3.C01): the concatenation of text() of the LR value stack followed by the "
+    pl.lemmas = ["L-LR (Lean: lr_accept over a shift / reduce model, lemmas/Compose.lean; DESIGN 3.C01; model link A8 assumed): the concatenation of text() of the LR value stack followed by the "
                  "texts of the unread tokens equals the input; shift preserves it trivially, reduce by C01-G "
                  "(the lookahead, hence every separator after the handle, is lexed before the reduce: F-fact "
                  "defaulted_states == {}); on acceptance the stack holds one value, so text(result) == input",
-                 "L-LEX (paper): Inv_L of C01-L is established by the first match (lexpos 0) and preserved by "
+                 "L-LEX (Lean: run_observation; model link assumed): Inv_L of C01-L is established by the first match (lexpos 0) and preserved by "
                  "every later match; matches are contiguous (A8)",
                  "L-J (Lean, lemmas/Seq.lean): a non-empty run of operands inside a join behaves like one element"]
     pl.claim = ("every grammar action, every lexer rule and every __str__ is proved for all values of its symbolic "
@@ -114,7 +116,7 @@ ASSUMPTIONS = [
     "A2 hooks on proxies agree with the native operations",
     "A3 re: a successful match of P yields groups in the languages of their sub-patterns; \\s+ is maximal",
     "A5 Python join/zip/all/any/sum/tuple are the list functions of the Lean lemmas",
-    "A6 composition lemmas L-LR, L-LEX, L-IND are paper proofs (DESIGN.md)",
+    "A6 the composition lemmas L-LR, L-LEX, L-TILE, L-IND, L-CONF, L-MARK are Lean theorems over explicit models (lemmas/Compose.lean); that the Python run is an instance of those models is assumed",
     "A7 node-class universe = leaf subclasses of Item in luqum.tree; attribute types as documented",
     "A8 PLY 3.11 lexer/parser contracts (token order, one rule call per match, contiguous matches, reduce calls "
     "the action once with the top-of-stack values, lookahead fetched before every reduce)",
